@@ -843,8 +843,9 @@ func TestProp_Structure(t *testing.T) {
 		}
 		inTag, nattr, raw := false, 0, 0
 		openTag, rawPending, afterRawText := "", "", ""
+		errorsInARow := 0
 		for i := 0; ; i++ {
-			if i > len(src)+2 {
+			if i > 2*len(src)+8 {
 				t.Fatalf("lexer does not terminate on %q", src)
 			}
 			tt, data := l.Next()
@@ -852,8 +853,16 @@ func TestProp_Structure(t *testing.T) {
 			twinTmpl.Step()
 			gen.Extend(data)
 			if tt == html.ErrorToken {
-				break
+				if _, ok := l.Err().(*parse.Error); !ok || errorsInARow >= 2 {
+					break // the end of the input (io.EOF, or the error that is reported from now on)
+				}
+				// an error inside the input (a NUL byte): the caller goes on, attribute tokens still belong to a start
+				// tag that was reported and is not closed yet; what the raw text expects is void
+				errorsInARow++
+				afterRawText, rawPending = "", ""
+				continue
 			}
+			errorsInARow = 0
 			if !tmplMode && l.HasTemplate() {
 				t.Fatalf("%q: HasTemplate() without delimiters on %v %q", src, tt, data)
 			}
